@@ -312,12 +312,12 @@ class C05(Sim):
             i = self._idx(r, n)
             if i is not None and a.t != "str":
                 if a.arity == 1:
-                    ar = r.choice([2, 3])
+                    ar = r.choice([2, 3, 1])  # (1: a one-element SEQUENCE handed to a scalar attribute - not a scalar)
                 else:
                     ar = r.choice([x for x in (1, 2, 3, 4, 5) if x != a.arity])
                 val = self._gen_value(r, a.t, ar)
                 if ar == 1:
-                    val = {"t": a.t, "w": "py", "seq": "list", "v": [enc_scalar(a.t, self._gen_scalar(r, a.t))]} if r.chance(0.5) else val
+                    val = {"t": a.t, "w": "py", "seq": "list", "v": [enc_scalar(a.t, self._gen_scalar(r, a.t))]} if (r.chance(0.5) or a.arity == 1) else val
                 return {"c": c, "op": "set_bad", "k": k, "name": name, "i": i, "val": val, "why": "arity"}
         if op in ("oob_get", "oob_set"):
             i = r.choice([-1, n, n, n + 1, -2, n + 7])
